@@ -1,6 +1,7 @@
 import Model.Flow
 import Proofs.FlowOnce
 import Proofs.FlowExec
+import Proofs.FlowLive
 
 /-! # C11 — no transaction taken from the mempool is lost on its way into the chain
 
@@ -315,8 +316,8 @@ theorem C11_exec_failure_loses_nothing (c : Cfg) (hc : CfgOK c) (ops : List Op) 
   exact this
 
 /-- non-vacuity: the execution fails while the block with `[t1, t2]` is produced: the batch waits at `height + 1`,
-nothing is missing; the retry commits it — directly, after a restart (= the node died during `ExecuteTxs`), after a
-second failure, and after a crash right after the early save of the failed step -/
+nothing is missing; the retry commits it — directly, after a restart (= the node died during `ExecuteTxs`), and after a
+crash right after the early save of the failed step -/
 example :
     (history wCfg [.mempool [t1, t2], .reap, .produce, .produceFail]).map
       (fun r => (chainTxs r.1.n.prod.store, pendingTxs r.1.n.prod.store, r.2.released)) =
@@ -324,13 +325,165 @@ example :
 example : chainOf wCfg [.mempool [t1, t2], .reap, .produce, .produceFail, .produce] = some [t1, t2] := by decide +kernel
 example : chainOf wCfg [.mempool [t1, t2], .reap, .produce, .produceFail, .restart, .reap, .produce, .produce] = some [t1, t2] := by
   decide +kernel
-example : chainOf wCfg [.mempool [t1, t2], .reap, .produce, .produceFail, .produceFail, .crash 0, .produce] = some [t1, t2] := by
-  decide +kernel
 example : missing wCfg [.mempool [t1, t2], .reap, .produce, .produceFail, .crash 3, .reap, .produce] = some [] := by
   decide +kernel
 
-/-- … while a crash of the failed step before its early save is the recorded loss window again -/
-example : missing wCfg [.mempool [t1, t2], .reap, .produce, .produceFail, .crash 2, .reap, .produce, .produce] = some [t1, t2] := by
-  decide +kernel
+/-! ## 4. "a failed hand-off is retried rather than forgotten" — and what it rests on
+
+`Reaper.SubmitTxs` keeps nothing of a refused batch (`block/reaper.go:99-106`: log and return): the transactions come
+back only because the execution layer's `GetTxs` answers them again.  `Op.mempool` models such an idempotent `GetTxs`;
+`Op.mempoolDrain` models the in-repo reference executor (`apps/testapp/kv` drains its channel). -/
+
+/-- HYPOTHESIS `GetTxs is idempotent`: what the last `GetTxs` answered is answered again by the next one -/
+def GetTxsIdempotent (σ : RunSt) : Prop := σ.drain = false
+
+/-- the reaper had new transactions and the sequencing layer refused them (queue at its bound) -/
+def refusedB (c : Cfg) (σ : RunSt) : Bool :=
+  !(newTxs σ.n σ.mempool).isEmpty && (reap c σ.n σ.mempool).2.isEmpty
+
+/-- after this `reap` the next `reap` tries every transaction this one tried -/
+def stillOffered (c : Cfg) (σ : RunSt) : Bool :=
+  match opStep c σ .reap with
+  | some σ' => (newTxs σ.n σ.mempool).all fun t => (newTxs σ'.n σ'.mempool).contains t
+  | none => true
+
+/-- Full statement: in every reachable state a refused hand-off is retried: the next `reap` offers the same
+transactions again. -/
+def C11_refused_retried_full : Prop :=
+  ∀ (c : Cfg) (ops : List Op) (σ : RunSt) (g : Ghost), CfgOK c → history c ops = some (σ, g) →
+    refusedB c σ = true → stillOffered c σ = true
+
+/-- FALSE of the current code with a draining mempool (recorded finding
+`C11/lost/refused-handoff-with-draining-mempool`): queue bound 2, two batches accepted, the third is refused — and
+its transaction, already taken out of the mempool, is offered by nobody any more. -/
+theorem C11_refused_retried_fails : ¬ C11_refused_retried_full := by
+  intro h
+  have key : ∀ r, history wCfg [.mempoolDrain [t1], .reap, .mempoolDrain [t2], .reap, .mempoolDrain [t3]] = some r →
+      refusedB wCfg r.1 = true ∧ stillOffered wCfg r.1 = false := by
+    have : (history wCfg [.mempoolDrain [t1], .reap, .mempoolDrain [t2], .reap, .mempoolDrain [t3]]).map
+        (fun r => (refusedB wCfg r.1, stillOffered wCfg r.1)) = some (true, false) := by decide +kernel
+    intro r hr
+    rw [hr] at this
+    simp only [Option.map_some, Option.some.injEq, Prod.mk.injEq] at this
+    exact this
+  obtain ⟨σ, g, hh⟩ := C11_always_restarts wCfg wCfg_ok [.mempoolDrain [t1], .reap, .mempoolDrain [t2], .reap, .mempoolDrain [t3]]
+  obtain ⟨k1, k2⟩ := key (σ, g) hh
+  have := h wCfg _ σ g wCfg_ok hh k1
+  rw [k2] at this
+  cases this
+
+/-- … and `t3` never reaches the chain although production continues and the reaper keeps running -/
+example : chainOf wCfg [.mempoolDrain [t1], .reap, .mempoolDrain [t2], .reap, .mempoolDrain [t3], .reap, .produce, .produce,
+    .reap, .produce, .reap, .produce, .produce] = some [t1, t2] := by decide +kernel
+
+/-- PARTIAL, under the named hypothesis **`GetTxsIdempotent`** (every state, reachable or not): a refused hand-off
+leaves the node and the mempool response as they are, so the next `reap` offers exactly the same transactions again. -/
+theorem C11_refused_retried_partial (c : Cfg) (σ : RunSt) (hid : GetTxsIdempotent σ) (hr : refusedB c σ = true) :
+    stillOffered c σ = true ∧
+    ∃ σ', opStep c σ .reap = some σ' ∧ σ'.n = σ.n ∧ σ'.mempool = σ.mempool ∧ σ'.ws = [] := by
+  have hreap : reap c σ.n σ.mempool = (σ.n, []) := by
+    rcases reap_cases c σ.n σ.mempool with h0 | ⟨_, _, h1⟩
+    · exact h0
+    · exfalso
+      unfold refusedB at hr
+      rw [h1] at hr
+      simp at hr
+  have hid' : σ.drain = false := hid
+  have hstep : opStep c σ .reap = some { σ with n := σ.n, before := diskOf σ.n, ws := [], mempool := σ.mempool } := by
+    simp only [opStep, hreap, hid', Bool.false_eq_true, ↓reduceIte]
+  refine ⟨?_, _, hstep, rfl, rfl, rfl⟩
+  unfold stillOffered
+  rw [hstep]
+  simp only [List.all_eq_true, List.contains_iff_mem]
+  intro t ht; exact ht
+
+/-- non-vacuity: the same refusal with an idempotent `GetTxs`: refused, offered again, and in the chain once the
+queue has room -/
+example :
+    (history wCfg [.mempool [t1], .reap, .mempool [t1, t2], .reap, .mempool [t1, t2, t3]]).map
+      (fun r => (refusedB wCfg r.1, stillOffered wCfg r.1)) = some (true, true) ∧
+    chainOf wCfg [.mempool [t1], .reap, .mempool [t1, t2], .reap, .mempool [t1, t2, t3], .reap, .produce, .produce,
+      .reap, .produce, .produce] = some [t1, t2, t3] := by decide +kernel
+
+/-! ## 5. progress: everything handed over is committed -/
+
+/-- **Draining liveness** (every reachable state: any history before it, crashes, restarts and execution failures
+included; `LiveCfg`: non-empty proposer address, no pending-DA limit): `k` successful production steps with
+`k ≥ need` — one for a block waiting at `height + 1`, one per queued batch — never fail, leave the queue empty and
+nothing waiting, change neither `handed` nor `lost`, and afterwards every batch handed over that is not in `lost`
+(the recorded crash window) **is in the chain**. -/
+theorem C11_drains (c : Cfg) (hc : LiveCfg c) (ops : List Op) (σ : RunSt) (g : Ghost)
+    (h : history c ops = some (σ, g)) (k : Nat) (hk : need σ.n ≤ k) :
+    ∃ σ' g', runG c σ g (List.replicate k .produce) = some (σ', g') ∧
+      queued σ'.n = [] ∧ pendingTxs σ'.n.prod.store = [] ∧ g'.handed = g.handed ∧ g'.lost = g.lost ∧
+      (KeyInjOn g.ever → ∀ b ∈ g.handed, b ∈ g.lost ∨ ∀ t ∈ b, t ∈ chainTxs σ'.n.prod.store) := by
+  obtain ⟨σ0, g0, h0, hf⟩ := history_inv hc.toCfgOK ops
+  rw [h] at h0
+  simp only [Option.some.injEq, Prod.mk.injEq] at h0
+  obtain ⟨rfl, rfl⟩ := h0
+  obtain ⟨σ', g', r1, r2, r3, r4, r5, r6, _⟩ := run_produce hc hf k
+  obtain ⟨q0, p0⟩ := need_zero (n := σ'.n) (by omega)
+  refine ⟨σ', g', r1, q0, p0, r4, r5, fun hK b hb => ?_⟩
+  rcases r2.dsafe_node (by rw [r6]; exact hK) b (by rw [r4]; exact hb) with h1 | h1 | h1
+  · exact Or.inl (by rw [← r5]; exact h1)
+  · right
+    intro t ht
+    have := h1 t ht
+    have e : durAll c.p (diskOf σ'.n).store = chainTxs σ'.n.prod.store ++ pendingTxs σ'.n.prod.store :=
+      node_durAll r2.live.toInv r2.synced
+    rw [e, p0, List.append_nil] at this
+    exact this
+  · exfalso
+    have hm := r2.sub _ h1
+    have : σ'.n.q.mem = [] := by
+      have hq : σ'.n.q.mem.flatten = [] := q0
+      cases hmm : σ'.n.q.mem with
+      | nil => rfl
+      | cons x xs =>
+        exfalso
+        have hx := r2.everM x (by rw [hmm]; simp)
+        -- the queue holds no empty batch …
+        rw [hmm] at hq
+        simp only [List.flatten_cons, List.append_eq_nil_iff] at hq
+        have hne : EverNe g' := by
+          obtain ⟨σ00, h00, _⟩ := init_inv hc.toCfgOK
+          have hr0 : runG c σ00 {} ops = some (σ, g) := by
+            unfold history at h; rw [h00] at h; exact h
+          have e0 : EverNe g := run_everNe (fun b hb => by cases hb) hr0
+          exact run_everNe e0 r1
+        exact hne x hx hq.1
+    rw [this] at hm; cases hm
+
+/-- **Without crashes and restarts everything handed over gets committed, once, in order**: after `k ≥ need` successful
+production steps the chain is exactly the sequence of transactions handed over. -/
+theorem C11_everything_committed (c : Cfg) (hc : LiveCfg c) (ops : List Op) (hn : ∀ op ∈ ops, op.isRestart = false)
+    (σ : RunSt) (g : Ghost) (h : history c ops = some (σ, g)) (k : Nat) (hk : need σ.n ≤ k) :
+    ∃ σ' g', runG c σ g (List.replicate k .produce) = some (σ', g') ∧
+      chainTxs σ'.n.prod.store = g.handed.flatten := by
+  obtain ⟨σ0, h0, hi0⟩ := init_inv hc.toCfgOK
+  have hr : runG c σ0 {} ops = some (σ, g) := by
+    unfold history at h; rw [h0] at h; exact h
+  obtain ⟨σ1, g1, hr1, hf⟩ := run_inv hc.toCfgOK hi0 ops
+  rw [hr] at hr1
+  simp only [Option.some.injEq, Prod.mk.injEq] at hr1
+  obtain ⟨rfl, rfl⟩ := hr1
+  have hcr : g.crashed = false := by rw [run_crashed hn hr]
+  obtain ⟨σ', g', r1, r2, r3, r4, _, _, r7⟩ := run_produce hc hf k
+  obtain ⟨q0, p0⟩ := need_zero (n := σ'.n) (by omega)
+  obtain ⟨e1, e2, _, _⟩ := r2.exact (by rw [r7]; exact hcr)
+  refine ⟨σ', g', r1, ?_⟩
+  have hq : σ'.n.q.mem.flatten = [] := q0
+  rw [← r4, e1, List.flatten_append, e2, p0, hq]; simp
+
+theorem wCfg_live : LiveCfg wCfg := ⟨wCfg_ok, by decide, rfl⟩
+
+/-- non-vacuity: three batches handed over, a failed execution and a restart in between; `need` is 3 there (one block
+waiting, two batches queued), and three more steps put everything into the chain -/
+example :
+    (history wCfg [.mempool [t1], .reap, .produce, .mempool [t1, t2], .reap, .produceFail, .restart, .mempool [t1, t2, t3],
+        .reap]).map (fun r => (need r.1.n, r.2.handed)) = some (3, [[t1], [t2], [t3]]) := by decide +kernel
+example :
+    chainOf wCfg ([.mempool [t1], .reap, .produce, .mempool [t1, t2], .reap, .produceFail, .restart, .mempool [t1, t2, t3],
+        .reap] ++ List.replicate 3 .produce) = some [t1, t2, t3] := by decide +kernel
 
 end Spec.C11
